@@ -3,7 +3,7 @@
    [gen_cfg] (Kip/Run.v) is built from gen/Gen_Kip.v, which the translator regenerates
    from /repo's working tree on every run; the statements below are re-checked against it. *)
 From Coq Require Import List String Bool Arith Ascii.
-From Verif Require Import Kip.Model Kip.Safe Kip.ProofsDecide Kip.Proofs Kip.Desugar Kip.Run gen.Gen_Kip.
+From Verif Require Import Kip.Model Kip.Safe Kip.ProofsDecide Kip.Proofs Kip.Desugar Kip.Run Kip.ProofsEq gen.Gen_Kip.
 Import ListNotations.
 Open Scope string_scope.
 Open Scope list_scope.
@@ -60,8 +60,10 @@ Print Assumptions C16_accepted_trees_pass_safe_b.
 (* The dispatch the model transcribes is the dispatch the source has (finite generated
    tables): which fields of which MutationClause variant validate_clause and
    collect_clause_handles read, which variants carry a WHERE / claim a handle, which table
-   guards which kind, the exact-membership test, and that parse_kip / validate_command run
-   the tree validator. *)
+   guards which kind, the exact-membership test, that parse_kip / validate_command run
+   the tree validator, and that the tree validator names nothing of the payloads the Coq AST
+   keeps opaque (FILTER expressions, AsOf, hop ranges, numbers, KipValue objects) — if it ever
+   looks inside one, this lemma breaks and the AST has to be widened. *)
 Theorem C16_dispatch_as_modelled :
   Gen_Kip.validate_clause_reads =
     [("CreateConcept", ["set_fields"; "set_attributes"; "set_facets"; "set_structural"]);
@@ -103,9 +105,34 @@ Theorem C16_dispatch_as_modelled :
   Gen_Kip.validate_command_kml_runs_validate_plan = true /\
   Gen_Kip.validate_command_export_runs_exact_patterns = true /\
   Gen_Kip.parse_kip_runs_validate_command = true /\
+  Gen_Kip.opaque_payloads_inspected = [] /\
+  Gen_Kip.filter_binds_nothing = true /\
   map (fun f => (f, gen_arity f)) [FAdd; FMul; FClamp; FCoalesce] = [(FAdd, 2); (FMul, 2); (FClamp, 3); (FCoalesce, 2)].
 Proof. repeat split; vm_compute; reflexivity. Qed.
 Print Assumptions C16_dispatch_as_modelled.
+
+(* ------------------------------------------------------------------ the runner is faithful
+   A passing correspondence case means what it says: the model's verdict IS the observed
+   verdict and an accepted tree IS Safe; the model's ASSERT expansion IS the clause list the
+   implementation produced (the structural equality tests of Kip/Run.v reflect equality). *)
+Theorem C16_passing_tree_case_means :
+  forall c v, check_tree (c, v) = true -> validate_command gen_cfg c = v /\ (v = VOk -> Safe c).
+Proof.
+  intros c v H. destruct (check_tree_sound c v H) as [H1 H2]. split; [exact H1|].
+  intro E. apply safe_b_iff, H2, E.
+Qed.
+Print Assumptions C16_passing_tree_case_means.
+
+Theorem C16_passing_assert_case_means :
+  forall a seq obs, check_desugar (a, seq, obs) = true -> desugar Gen_Kip.ASSERT_MEMBERS seq a = obs.
+Proof. exact check_desugar_sound. Qed.
+Print Assumptions C16_passing_assert_case_means.
+
+Theorem C16_runner_equality_reflects :
+  (forall a b, ensure_eqb a b = true <-> a = b) /\ (forall a b, record_eqb a b = true <-> a = b) /\
+  (forall a b, by_eqb a b = true <-> a = b) /\ (forall a b, verdict_eqb a b = true <-> a = b).
+Proof. exact runner_equality_reflects. Qed.
+Print Assumptions C16_runner_equality_reflects.
 
 (* ------------------------------------------------------------------ ASSERT *)
 (* The shorthand expands to exactly ENSURE PROPOSITION + CREATE ASSERTION (+ SUPERSEDE iff
@@ -243,6 +270,20 @@ Example C16_rejects_each_guard :
   (* PURGE with a near-miss confirmation *)
   validate_command gen_cfg (CKml false [Purge (mkPurge (EParam "e") None None None "purge")]) = VErr InvalidSyntax.
 Proof. repeat split; vm_compute; reflexivity. Qed.
+
+(* handle graphs: a forward reference resolves; a variable bound only by a sibling clause's
+   WHERE does not (the later UPDATE would otherwise escape every kind guard) *)
+Example C16_handle_graphs :
+  validate_command gen_cfg (CKml true
+    [CreateAssertion (mkRC "s" None None []
+       (Some [mkEdge (SymName "evidence") (MHandle "e") (Some [("role", BVal (KStr "support"))])]));
+     CreateEvidence (mkRC "e" None None [] None)]) = VOk /\
+  validate_command gen_cfg (CKml true
+    [Update (mkUp (EHandle "w") None [USetAttributes [("seen", MVal (KNum "1"))]]
+                  (Some (WCons (WAssertion "w" (idm "A-1")) WNil)) None);
+     Update (mkUp (EHandle "w") None [USetFields [("confidence", MVal (KNum "0.1"))]] None None)])
+    = VErr ReferenceError.
+Proof. split; vm_compute; reflexivity. Qed.
 
 Example C16_desugar_nonvacuous :
   desugar Gen_Kip.ASSERT_MEMBERS 0
